@@ -92,6 +92,14 @@ pub enum ImportOp {
     Again(u16),
     /// import a removed frame back
     Back(u16),
+    /// import a frame with the id, topic and context of a stored frame but other meta / ttl /
+    /// hash: the stored frame is replaced (no index key changes)
+    Amend {
+        target: u16,
+        meta: Option<MetaVal>,
+        ttl: Option<WTtl>,
+        hash: bool,
+    },
     /// import a different frame under the id of a frame that is gone (the id is free)
     Reuse {
         target: u16,
@@ -181,6 +189,7 @@ impl Op {
             Op::Import(ImportOp::Again(_)) => "import-again",
             Op::Import(ImportOp::Back(_)) => "import-back",
             Op::Import(ImportOp::Reuse { .. }) => "import-reuse-id",
+            Op::Import(ImportOp::Amend { .. }) => "import-amend",
             Op::Import(ImportOp::Reg { .. }) => "import-reg",
             Op::Import(ImportOp::Nul { .. }) => "import-nul",
             Op::Remove(_) => "remove",
@@ -544,6 +553,8 @@ pub fn op_strategy(p: &Profile) -> BoxedStrategy<Op> {
         3 => any::<u16>().prop_map(ImportOp::Back),
         3 => (any::<u16>(), topic_of(p), ctx_sel(p), ttl_persistent())
             .prop_map(|(target, topic, ctx, ttl)| ImportOp::Reuse { target, topic, ctx, ttl }),
+        2 => (any::<u16>(), meta_opt(p.meta), prop_oneof![2 => Just(None), 1 => Just(Some(WTtl::Forever)), 1 => Just(Some(WTtl::Time(u64::MAX)))], any::<bool>())
+            .prop_map(|(target, meta, ttl, hash)| ImportOp::Amend { target, meta, ttl, hash }),
         1 => (topic_nul(), pos_sel()).prop_map(|(topic, pos)| ImportOp::Nul { topic, pos }),
     ]
     .prop_map(Op::Import);
@@ -1054,6 +1065,7 @@ impl Interp {
                     .filter(|c| c.len() % 2 == 1)
                     .map(|c| (c.len() / 3).max(1)),
                 explicit_zero_ctx: spec.topic.len() % 2 == 1,
+                split_at: content.as_ref().filter(|c| c.len() % 4 == 2).map(|c| c.len() / 2),
             };
             // an empty body means "no content" over HTTP
             let body = content.as_deref().filter(|c| !c.is_empty());
@@ -1872,6 +1884,38 @@ impl Interp {
                         if spec.ttl == Some(WTtl::Ephemeral) {
                             return Ok(());
                         }
+                        self.do_import(spec)?;
+                    }
+                }
+                ImportOp::Amend {
+                    target,
+                    meta,
+                    ttl,
+                    hash,
+                } => {
+                    let ev = self.model.pending_evictable();
+                    let live: Vec<FrameSpec> = self
+                        .known
+                        .iter()
+                        .filter(|k| k.spec.topic != "xs.context" && !ev.contains(&k.id))
+                        .filter(|k| {
+                            self.model
+                                .frames
+                                .get(&k.id)
+                                .map(|f| f.presence == Presence::Present && f.pending_remove.is_none() && !self.model.is_expired(f))
+                                .unwrap_or(false)
+                        })
+                        .map(|k| k.spec.clone())
+                        .collect();
+                    if let Some(i) = pick(*target, live.len()) {
+                        let mut spec = live[i].clone();
+                        spec.meta = meta.clone();
+                        spec.ttl = ttl.clone();
+                        spec.hash = if *hash {
+                            Some(sha256_integrity(&spec.id.unwrap().to_be_bytes()))
+                        } else {
+                            None
+                        };
                         self.do_import(spec)?;
                     }
                 }
